@@ -316,10 +316,25 @@ class MarshalSerializer(SerializerBase):
     def dumpsCall(self, obj, method, vargs, kwargs):
         vargs = [self.convert_obj_into_marshallable(value) for value in vargs]
         kwargs = {key: self.convert_obj_into_marshallable(value) for key, value in (kwargs or {}).items()}
-        return marshal.dumps((obj, method, vargs, kwargs))
+        try:
+            return marshal.dumps((obj, method, vargs, kwargs))
+        except ValueError:
+            # something nested inside a container needs conversion as well
+            return marshal.dumps(self.__deep_convert((obj, method, vargs, kwargs)))
 
     def dumps(self, data):
-        return marshal.dumps(self.convert_obj_into_marshallable(data))
+        try:
+            return marshal.dumps(self.convert_obj_into_marshallable(data))
+        except ValueError:
+            # something nested inside a container needs conversion as well (for instance the
+            # exception wrapper in the result list of a batch call)
+            return marshal.dumps(self.__deep_convert(data))
+
+    def __deep_convert(self, data):
+        try:
+            return self.convert_obj_into_marshallable(data, True)
+        except RecursionError:
+            raise ValueError("unmarshallable object (circular reference or nested too deeply)") from None
 
     def loadsCall(self, data):
         data = self._convertToBytes(data)
@@ -332,7 +347,7 @@ class MarshalSerializer(SerializerBase):
         data = self._convertToBytes(data)
         return self.recreate_classes(marshal.loads(data))
 
-    def convert_obj_into_marshallable(self, obj):
+    def convert_obj_into_marshallable(self, obj, deep=False):
         marshalable_types = (str, int, float, type(None), bool, complex, bytes, bytearray,
                              tuple, set, frozenset, list, dict)
         if isinstance(obj, array.array):
@@ -342,8 +357,17 @@ class MarshalSerializer(SerializerBase):
                 return obj.tounicode()
             return obj.tolist()
         if isinstance(obj, marshalable_types):
+            if deep:
+                t = type(obj)
+                if t in (list, tuple, set, frozenset):
+                    return t(self.convert_obj_into_marshallable(value, True) for value in obj)
+                if t is dict:
+                    return {key: self.convert_obj_into_marshallable(value, True) for key, value in obj.items()}
             return obj
-        return self.class_to_dict(obj)
+        converted = self.class_to_dict(obj)
+        if deep:
+            return self.convert_obj_into_marshallable(converted, True)
+        return converted
 
     @classmethod
     def class_to_dict(cls, obj):
